@@ -150,6 +150,7 @@ func VerifH_C06_postprocess() {
 	verifmodel.DocKind, verifmodel.DocAssets, verifmodel.DocOutlinks, verifmodel.DocErr = kind, assets, outs, fails
 	verifmodel.MIME = ctype
 
+	hadBody := item.GetURL().GetBody() != nil
 	outlinks := postprocessItem(item)
 
 	isRedirect := status == 301 || status == 308
@@ -200,8 +201,25 @@ func VerifH_C06_postprocess() {
 			verifrt.Assert(o.IsSeed() && o.GetStatus() == models.ItemFresh, "C06 outlinks are fresh seeds")
 		}
 	}
-	// the body is closed whatever happened (C16)
-	if item.GetURL().GetBody() != nil {
-		verifrt.Assert(body.closed >= 1, "C06 the body is closed after post-processing")
+	// sufficiency (C07's clause): a successfully fetched document's anchors reach the queue whenever the hop limit allows,
+	// with or without asset capture
+	if !isRedirect && status == 200 && kind == "html" && hadBody && !domains && hops < maxHops && (assetDepth <= 2) &&
+		!(assetDepth == 1 && kind == "html") {
+		for _, want := range outs {
+			found := false
+			for _, o := range outlinks {
+				if o.GetURL().Raw == want {
+					found = true
+				}
+			}
+			verifrt.Cover("outlink-expected")
+			verifrt.Assert(found, "C07 anchor targets are handed to the queue whenever the hop limit allows")
+		}
+	}
+	// the body is closed and released whatever happened (C16)
+	if hadBody {
+		verifrt.Cover("body-released")
+		verifrt.Assert(body.closed >= 1, "C16 the body is closed after post-processing")
+		verifrt.Assert(item.GetURL().GetBody() == nil, "C16 the item no longer holds its body after post-processing")
 	}
 }
